@@ -1160,7 +1160,7 @@ const FRAGMENTS: [(&str, &str); 62] = [
     ("clean", "cd d1; (alias >sub%); y=$(for i in *; do typeset -p i; done); typeset -p y; cd .."),
     ("clean", "cd d2; x%=q; typeset -p x% | { read -r l; typeset -p l >pp%; }; cd .."),
     ("clean", "umask 027; (alias >su%); alias | alias >sv%; umask 644"),
-    ("clean", "ulimit -n 7; (alias 8<f1); s=$?; typeset -p s"),
+    ("clean", "(ulimit -n 7; (alias 8<f1); s=$?; typeset -p s; (ulimit -n 9; alias 8<f1); s=$?; typeset -p s)"),
     ("emfile", "(ulimit -n 3; exec 5>nf%); s=$?; typeset -p s"),
     ("opendir", "for i in *; do :; done; for i in d1/*; do :; done; alias <&3; s=$?; typeset -p s; alias <&4; s=$?; typeset -p s"),
     ("opendir", "(ulimit -n 5; for i in d1/*; do typeset -p i; done; for i in d1/*; do typeset -p i; done; for i in d1/*; do typeset -p i; done)"),
@@ -1208,6 +1208,17 @@ fn gen_script(rng: &mut Rng, allow_known: bool) -> (String, String) {
         let um = *rng.pick(&["022", "027", "077", "002", "000", "137", "026"]);
         let word = *rng.pick(&["alpha", "b-c", "x y", "q=r", "tab\there"]);
         parts.push(text.replace('%', &suffix).replace("@F", &fd).replace("@U", um).replace("@W", &format!("'{word}'")));
+    }
+    // Pathname expansion leaks descriptors on the simulator (D7); a descriptor limit set afterwards makes
+    // the leak observable, so such a composition belongs to class `opendir`.
+    if tags.is_empty() {
+        let first_glob = parts.iter().position(|p: &String| ["in *", "in f*", "in d1/*"].iter().any(|g| p.contains(g)));
+        let last_limit = parts.iter().rposition(|p: &String| p.contains("ulimit"));
+        if let (Some(g), Some(l)) = (first_glob, last_limit) {
+            if g < l {
+                tags.push("opendir");
+            }
+        }
     }
     let tag = if tags.is_empty() { "clean".to_string() } else { tags.join("+") };
     (tag, parts.join("\n"))
